@@ -20,13 +20,69 @@ From Coq Require Import List ZArith NArith Bool.
 From Verif Require Import common.Sexp sem.JV sem.Syntax.
 Import ListNotations.
 
-Definition is_nil (e : sexp) : bool := atom_is "_" e.
+(* tag constants (converted once) *)
+Definition tg_nil : bytes := codes "_".
+Definition tg_a : bytes := codes "a".
+Definition tg_add : bytes := codes "add".
+Definition tg_alt : bytes := codes "alt".
+Definition tg_and : bytes := codes "and".
+Definition tg_array : bytes := codes "array".
+Definition tg_assign : bytes := codes "assign".
+Definition tg_b : bytes := codes "b".
+Definition tg_break : bytes := codes "break".
+Definition tg_comma : bytes := codes "comma".
+Definition tg_div : bytes := codes "div".
+Definition tg_eq : bytes := codes "eq".
+Definition tg_f : bytes := codes "f".
+Definition tg_false : bytes := codes "false".
+Definition tg_foreach : bytes := codes "foreach".
+Definition tg_format : bytes := codes "format".
+Definition tg_func : bytes := codes "func".
+Definition tg_ge : bytes := codes "ge".
+Definition tg_gt : bytes := codes "gt".
+Definition tg_i : bytes := codes "i".
+Definition tg_identity : bytes := codes "identity".
+Definition tg_if : bytes := codes "if".
+Definition tg_index : bytes := codes "index".
+Definition tg_label : bytes := codes "label".
+Definition tg_le : bytes := codes "le".
+Definition tg_lt : bytes := codes "lt".
+Definition tg_mod : bytes := codes "mod".
+Definition tg_modify : bytes := codes "modify".
+Definition tg_mul : bytes := codes "mul".
+Definition tg_ne : bytes := codes "ne".
+Definition tg_null : bytes := codes "null".
+Definition tg_number : bytes := codes "number".
+Definition tg_o : bytes := codes "o".
+Definition tg_object : bytes := codes "object".
+Definition tg_or : bytes := codes "or".
+Definition tg_pipe : bytes := codes "pipe".
+Definition tg_q : bytes := codes "q".
+Definition tg_query : bytes := codes "query".
+Definition tg_recurse : bytes := codes "recurse".
+Definition tg_reduce : bytes := codes "reduce".
+Definition tg_s : bytes := codes "s".
+Definition tg_string : bytes := codes "string".
+Definition tg_sub : bytes := codes "sub".
+Definition tg_t : bytes := codes "t".
+Definition tg_true : bytes := codes "true".
+Definition tg_try : bytes := codes "try".
+Definition tg_uadd : bytes := codes "uadd".
+Definition tg_ualt : bytes := codes "ualt".
+Definition tg_udiv : bytes := codes "udiv".
+Definition tg_umod : bytes := codes "umod".
+Definition tg_umul : bytes := codes "umul".
+Definition tg_unary : bytes := codes "unary".
+Definition tg_usub : bytes := codes "usub".
+Definition is_tag (c : bytes) (e : sexp) : bool := match e with Atom a => list_N_eqb a c | _ => false end.
+
+Definition is_nil (e : sexp) : bool := is_tag tg_nil e.
 
 Definition dec_bytes (e : sexp) : option bytes :=
   match e with Atom a => parse_hexs a | _ => None end.
 
 Definition dec_bool (e : sexp) : option bool :=
-  if atom_is "t" e then Some true else if atom_is "f" e then Some false else None.
+  if is_tag tg_t e then Some true else if is_tag tg_f e then Some false else None.
 
 Fixpoint map_opt {A B} (f : A -> option B) (l : list A) : option (list B) :=
   match l with
@@ -41,25 +97,25 @@ Definition dec_list {A} (f : sexp -> option A) (e : sexp) : option (list A) :=
   match e with SList l => map_opt f l | _ => None end.
 
 Definition dec_op (e : sexp) : option operator :=
-  if atom_is "pipe" e then Some OpPipe else if atom_is "comma" e then Some OpComma
-  else if atom_is "add" e then Some OpAdd else if atom_is "sub" e then Some OpSub
-  else if atom_is "mul" e then Some OpMul else if atom_is "div" e then Some OpDiv
-  else if atom_is "mod" e then Some OpMod else if atom_is "eq" e then Some OpEq
-  else if atom_is "ne" e then Some OpNe else if atom_is "gt" e then Some OpGt
-  else if atom_is "lt" e then Some OpLt else if atom_is "ge" e then Some OpGe
-  else if atom_is "le" e then Some OpLe else if atom_is "and" e then Some OpAnd
-  else if atom_is "or" e then Some OpOr else if atom_is "alt" e then Some OpAlt
-  else if atom_is "assign" e then Some OpAssign else if atom_is "modify" e then Some OpModify
-  else if atom_is "uadd" e then Some OpUpdateAdd else if atom_is "usub" e then Some OpUpdateSub
-  else if atom_is "umul" e then Some OpUpdateMul else if atom_is "udiv" e then Some OpUpdateDiv
-  else if atom_is "umod" e then Some OpUpdateMod else if atom_is "ualt" e then Some OpUpdateAlt
+  if is_tag tg_pipe e then Some OpPipe else if is_tag tg_comma e then Some OpComma
+  else if is_tag tg_add e then Some OpAdd else if is_tag tg_sub e then Some OpSub
+  else if is_tag tg_mul e then Some OpMul else if is_tag tg_div e then Some OpDiv
+  else if is_tag tg_mod e then Some OpMod else if is_tag tg_eq e then Some OpEq
+  else if is_tag tg_ne e then Some OpNe else if is_tag tg_gt e then Some OpGt
+  else if is_tag tg_lt e then Some OpLt else if is_tag tg_ge e then Some OpGe
+  else if is_tag tg_le e then Some OpLe else if is_tag tg_and e then Some OpAnd
+  else if is_tag tg_or e then Some OpOr else if is_tag tg_alt e then Some OpAlt
+  else if is_tag tg_assign e then Some OpAssign else if is_tag tg_modify e then Some OpModify
+  else if is_tag tg_uadd e then Some OpUpdateAdd else if is_tag tg_usub e then Some OpUpdateSub
+  else if is_tag tg_umul e then Some OpUpdateMul else if is_tag tg_udiv e then Some OpUpdateDiv
+  else if is_tag tg_umod e then Some OpUpdateMod else if is_tag tg_ualt e then Some OpUpdateAlt
   else None.
 
 Definition dec_num (e : sexp) : option num :=
   match e with
   | SList [t; Atom v] =>
-      if atom_is "i" t || atom_is "b" t then option_map NInt (parse_Z v)
-      else if atom_is "f" t then option_map (fun z => NFlt (f_of_bits z)) (parse_Z v)
+      if is_tag tg_i t || is_tag tg_b t then option_map NInt (parse_Z v)
+      else if is_tag tg_f t then option_map (fun z => NFlt (f_of_bits z)) (parse_Z v)
       else None
   | _ => None
   end.
@@ -79,7 +135,7 @@ Fixpoint dec_query (n : nat) (e : sexp) : option query :=
   match n with O => None | S n =>
   match e with
   | SList [tag; imps; fds; t; l; o; r; pats] =>
-      if atom_is "q" tag then
+      if is_tag tg_q tag then
         match dec_list dec_import imps, dec_list (dec_funcdef n) fds, dec_opt (dec_term n) t,
               dec_opt (dec_query n) l, dec_opt dec_op o, dec_opt (dec_query n) r,
               dec_list (dec_pattern n) pats with
@@ -106,47 +162,47 @@ with dec_term (n : nat) (e : sexp) : option term :=
     match k, sfx s with Some k, Some s => Some (Term k s) | _, _ => None end in
   match e with
   | SList [k; s] =>
-      if atom_is "identity" k then mk (Some TIdentity) s
-      else if atom_is "recurse" k then mk (Some TRecurse) s
-      else if atom_is "null" k then mk (Some TNull) s
-      else if atom_is "true" k then mk (Some TTrue) s
-      else if atom_is "false" k then mk (Some TFalse) s
+      if is_tag tg_identity k then mk (Some TIdentity) s
+      else if is_tag tg_recurse k then mk (Some TRecurse) s
+      else if is_tag tg_null k then mk (Some TNull) s
+      else if is_tag tg_true k then mk (Some TTrue) s
+      else if is_tag tg_false k then mk (Some TFalse) s
       else None
   | SList [k; a; s] =>
-      if atom_is "index" k then mk (option_map TIndex (dec_index n a)) s
-      else if atom_is "func" k then mk (option_map TFunc (dec_func n a)) s
-      else if atom_is "object" k then mk (option_map TObject (dec_list (dec_kv n) a)) s
-      else if atom_is "array" k then mk (option_map TArray (dec_opt (dec_query n) a)) s
-      else if atom_is "string" k then mk (option_map TString (dec_jstring n a)) s
-      else if atom_is "break" k then mk (option_map TBreak (dec_bytes a)) s
-      else if atom_is "query" k then mk (option_map TQuery (dec_query n a)) s
+      if is_tag tg_index k then mk (option_map TIndex (dec_index n a)) s
+      else if is_tag tg_func k then mk (option_map TFunc (dec_func n a)) s
+      else if is_tag tg_object k then mk (option_map TObject (dec_list (dec_kv n) a)) s
+      else if is_tag tg_array k then mk (option_map TArray (dec_opt (dec_query n) a)) s
+      else if is_tag tg_string k then mk (option_map TString (dec_jstring n a)) s
+      else if is_tag tg_break k then mk (option_map TBreak (dec_bytes a)) s
+      else if is_tag tg_query k then mk (option_map TQuery (dec_query n a)) s
       else None
   | SList [k; a; b; s] =>
-      if atom_is "number" k then
+      if is_tag tg_number k then
         mk (match dec_bytes a, dec_num b with Some a, Some b => Some (TNumber a b) | _, _ => None end) s
-      else if atom_is "unary" k then
+      else if is_tag tg_unary k then
         mk (match dec_op a, dec_term n b with Some a, Some b => Some (TUnary a b) | _, _ => None end) s
-      else if atom_is "format" k then
+      else if is_tag tg_format k then
         mk (match dec_bytes a, dec_opt (dec_jstring n) b with Some a, Some b => Some (TFormat a b) | _, _ => None end) s
-      else if atom_is "try" k then
+      else if is_tag tg_try k then
         mk (match dec_query n a, dec_opt (dec_query n) b with Some a, Some b => Some (TTry a b) | _, _ => None end) s
-      else if atom_is "label" k then
+      else if is_tag tg_label k then
         mk (match dec_bytes a, dec_query n b with Some a, Some b => Some (TLabel a b) | _, _ => None end) s
       else None
   | SList [k; a; b; c; d; s] =>
-      if atom_is "if" k then
+      if is_tag tg_if k then
         let dec_elif (x : sexp) := match x with
                                    | SList [p; q] => match dec_query n p, dec_query n q with
                                                      | Some p, Some q => Some (p, q) | _, _ => None end
                                    | _ => None end in
         mk (match dec_query n a, dec_query n b, dec_list dec_elif c, dec_opt (dec_query n) d with
             | Some a, Some b, Some c, Some d => Some (TIf a b c d) | _, _, _, _ => None end) s
-      else if atom_is "reduce" k then
+      else if is_tag tg_reduce k then
         mk (match dec_query n a, dec_pattern n b, dec_query n c, dec_query n d with
             | Some a, Some b, Some c, Some d => Some (TReduce a b c d) | _, _, _, _ => None end) s
       else None
   | SList [k; a; b; c; d; x; s] =>
-      if atom_is "foreach" k then
+      if is_tag tg_foreach k then
         mk (match dec_query n a, dec_pattern n b, dec_query n c, dec_query n d, dec_opt (dec_query n) x with
             | Some a, Some b, Some c, Some d, Some x => Some (TForeach a b c d x) | _, _, _, _, _ => None end) s
       else None
@@ -230,18 +286,18 @@ Fixpoint dec_jv (n : nat) (e : sexp) : option jv :=
   match n with O => None | S n =>
   match e with
   | Atom _ =>
-      if atom_is "null" e then Some VNull
-      else if atom_is "true" e then Some (VBool true)
-      else if atom_is "false" e then Some (VBool false)
+      if is_tag tg_null e then Some VNull
+      else if is_tag tg_true e then Some (VBool true)
+      else if is_tag tg_false e then Some (VBool false)
       else None
   | SList (t :: rest) =>
-      if atom_is "a" t then option_map VArr (map_opt (dec_jv n) rest)
-      else if atom_is "o" t then
+      if is_tag tg_a t then option_map VArr (map_opt (dec_jv n) rest)
+      else if is_tag tg_o t then
         option_map VObj (map_opt (fun kv => match kv with
                                             | SList [k; v] => match dec_bytes k, dec_jv n v with
                                                               | Some k, Some v => Some (k, v) | _, _ => None end
                                             | _ => None end) rest)
-      else if atom_is "s" t then
+      else if is_tag tg_s t then
         match rest with [x] => option_map VStr (dec_bytes x) | _ => None end
       else option_map VNum (dec_num e)
   | _ => None
